@@ -362,7 +362,48 @@ def c10(ctx):
                'non-trivial = more than one variant or field, or any marker')
 
 
+# ---------------------------------------------------------------- C20
+class UnionRender(TypeRender):
+    UT = {'u8': ('u8', 1, 1), 'u16': ('u16', 2, 2), 'a3': ('[u8; 3]', 3, 1), 'u32': ('u32', 4, 4), 'a16x4': ('[u16; 4]', 8, 2)}
+
+    def __init__(self, idx, cfg, prop):
+        super().__init__(idx, cfg, prop)
+        self.pool = None
+
+    def usize(self):
+        fs = self.cfg['variants'][0]['fields']
+        sz = max(self.UT[f['ty']][1] for f in fs)
+        al = max(self.UT[f['ty']][2] for f in fs)
+        return (sz + al - 1) // al * al
+
+    def item(self):
+        fs = self.cfg['variants'][0]['fields']
+        body = ', '.join('f%d: %s' % (i, self.UT[f['ty']][0]) for i, f in enumerate(fs, 1))
+        return '#[derive(Educe)] %s union %s { %s, raw: [u8; %d] }' % (self.type_attr(), self.name, body, self.usize())
+
+    def case_impl(self):
+        n = self.usize()
+        return ('impl UCase for %s { const ID: usize = %d; fn from_bytes(b: &[u8]) -> Self { let mut raw = [0u8; %d]; raw.copy_from_slice(b); %s { raw } } }'
+                % (self.name, self.idx, n, self.name))
+
+
+def c20(ctx):
+    quick = ctx.tier == 'quick'
+    runs = [{'module': 'MC_C20', 'cfg': 'MC_C20_quick.cfg', 'workers': 8}] if quick else \
+           [{'module': 'MC_C20', 'cfg': 'MC_C20_thorough.cfg', 'workers': 12, 'timeout': 3000, 'heap': '16g'}]
+
+    def calls(r):
+        return ['run_union::<%s, _>(&mut out, "%s");' % (r.name, r.name)]
+
+    r_property(ctx, runs, ['DoSeal', 'DoBegin', 'Step', 'Return'], UnionRender, calls, [0, 1],
+               COMMON_ASSUMPTIONS + ['every union carries an extra `raw: [u8; size]` member through which all its bytes are initialised (it changes neither size nor alignment)'],
+               'unions with 1..MaxFields fields of sizes/alignments {u8, u16, [u8;3], u32, [u16;4]} x Debug name {default, off, custom}, educing Debug/PartialEq/Eq/Hash/Clone/Copy '
+               'behind `unsafe`; values = all byte patterns over {0,7,255} for sizes <= 2, five boundary patterns above; per value: Debug text in both modes, the recorded '
+               'hasher feed against the feed of the byte slice itself, the bytes of the clone, == against every pattern; non-trivial = more than one field or a name setting')
+
+
 REGISTRY = {
+    'C20': c20,
     'C10': c10,
     'C09': c09,
     'C08': c08,
